@@ -492,25 +492,9 @@ def run(ctx):
             badg.append((ln, got, want))
     r4.check(not badg, 'gfrom-skips->-and-compares-"From "', 'gfrom.c', 'gfrom(line) deviates (line, result, documented): %s; an unquoted "From " line splits the message for the mbox reader' % badg[:4])
     mainf = prog.fn('main', 'qmail-local.c')
-    # the From_ line: which bytes of the sender are replaced by '-'
-    from qv.lib import values_reaching
-    dash = [x for x in mainf.all_x() if x.k == 'asg' and x.op == '=' and x.args[0].var and x.args[0].var[:2] == 'L:' and x.args[1].const == ord('-')]
-    consts = None
-    for dsh in dash:
-        var = dsh.args[0].var
-        loads = [x for x in mainf.all_x() if x.k == 'asg' and x.op == '=' and x.args[0].var == var and 'sender[' in x.args[1].src()]
-        if not loads:
-            continue
-        lb = mainf.pos[loads[0].id][0]
-        # start after the block that loads the byte: its successors
-        vals = set()
-        for sblk in mainf.blocks[lb].succs:
-            if sblk is not None:
-                vals |= values_reaching(mainf, var, sblk, mainf.pos[dsh.id][0], range(-128, 128), stop_blocks={lb})
-        if mainf.blocks[lb].cond is not None:
-            # the load and the first test share a block
-            vals = values_reaching(mainf, var, lb, mainf.pos[dsh.id][0], range(-128, 128))
-        consts = vals
-    r4.check(consts == {32, 9, 10}, 'From_-line-maps-space,tab,newline', mainf.unit + ':main', 'bytes of the sender replaced by "-": %s' % (sorted(consts) if consts is not None else 'site not found'))
+    # the From_ line: exactly blank, tab and newline of the sender become '-' (qmail-local's main explored concretely with a sender of all 255 byte values)
+    from rules import C13
+    v = C13.main_prefix_sites(db, rep, prog)['From_-line-maps-blank,tab,newline-of-the-sender-to-a-dash']
+    r4.check(v[0], 'From_-line-maps-space,tab,newline', v[1], v[2], v[3])
     r4.expect_min(3)
     rep.assume('fsync durability, atomic link, O_EXCL and flock semantics', 'the round trip of the mbox quoting for all messages is not decided')
